@@ -1,6 +1,7 @@
 package dkg_proposal_fsm
 
 import (
+	"bytes"
 	"errors"
 	"fmt"
 	"reflect"
@@ -408,6 +409,19 @@ func (m *DKGProposalFSM) actionMasterKeyConfirmationReceived(inEvent fsm.Event, 
 	if dkgProposalParticipant.Status != internal.MasterKeyAwaitConfirmation {
 		err = fmt.Errorf("cannot confirm response with {Status} = {\"%s\"}", dkgProposalParticipant.Status)
 		return
+	}
+
+	// All participants must announce the same public polynomial, as they must announce the same master key
+	for _, participant := range m.payload.DKGProposalPayload.Quorum {
+		if participant.Status == internal.MasterKeyConfirmed &&
+			!bytes.Equal(m.payload.DKGProposalPayload.PubPolyBz, request.PubPolyBz) {
+			for _, p := range m.payload.DKGProposalPayload.Quorum {
+				p.Status = internal.MasterKeyConfirmationError
+				p.Error = requests.NewFSMError(errors.New("public polynomial is mismatched"))
+			}
+			outEvent = eventDKGMasterKeyConfirmationCancelByErrorInternal
+			return
+		}
 	}
 
 	dkgProposalParticipant.DkgMasterKey = make([]byte, len(request.MasterKey))
